@@ -701,7 +701,7 @@ theorem loop_vmLines {av : Avail} (vm : Str) : ∀ (args : List Str) (st st' : S
       by_cases hh : (vm' == vm && !v.isEmpty) = true
       · simp only [hh, if_true, List.append_assoc, true_and]
         rw [← Bool.or_assoc, Bool.or_comm (vm' == vm)]
-      · simp only [hh, List.nil_append, true_and]
+      · simp only [hh]
         rw [← Bool.or_assoc, Bool.or_comm (vm' == vm)]
         simp
     | bad => simp
@@ -935,5 +935,61 @@ def vmDefaultLines (av : Avail) (pd : List (Str × Str)) (vm : Str) : List (Str 
   match vmDefault av pd vm with
   | some d => if d.isEmpty then [] else [(kOnly, d)]
   | none => []
+
+
+/-! ### permutations of the argument list -/
+
+theorem parseLines_cons_ok {l : Str × Str} {rest : List (Str × Str)} {ls : List Line} :
+    parseLines (l :: rest) = .ok ls ↔
+      ∃ x xs, parseLine l = .ok x ∧ parseLines rest = .ok xs ∧ ls = x :: xs := by
+  simp only [parseLines]
+  cases parseLine l with
+  | error e => simp
+  | ok x =>
+    cases parseLines rest with
+    | error e => simp
+    | ok xs =>
+      simp only [Except.ok.injEq]
+      constructor
+      · intro h; exact ⟨x, xs, rfl, rfl, h.symm⟩
+      · rintro ⟨x', xs', h1, h2, h3⟩; subst h1; subst h2; exact h3.symm
+
+/-- restriction strings that are permutations of each other parse to permuted line lists -/
+theorem parseLines_perm {tl tl' : List (Str × Str)} (hp : tl.Perm tl') :
+    ∀ {ls : List Line}, parseLines tl = .ok ls → ∃ ls', parseLines tl' = .ok ls' ∧ ls.Perm ls' := by
+  induction hp with
+  | nil => intro ls h; exact ⟨ls, h, List.Perm.refl _⟩
+  | cons x _ ih =>
+    intro ls h
+    obtain ⟨y, ys, h1, h2, rfl⟩ := parseLines_cons_ok.mp h
+    obtain ⟨ls', e, p⟩ := ih h2
+    exact ⟨y :: ls', parseLines_cons_ok.mpr ⟨y, ls', h1, e, rfl⟩, p.cons _⟩
+  | swap x y l =>
+    intro ls h
+    obtain ⟨a, as, h1, h2, rfl⟩ := parseLines_cons_ok.mp h
+    obtain ⟨b, bs, h3, h4, rfl⟩ := parseLines_cons_ok.mp h2
+    exact ⟨b :: a :: bs, parseLines_cons_ok.mpr ⟨b, a :: bs, h3, parseLines_cons_ok.mpr ⟨a, bs, h1, h4, rfl⟩, rfl⟩,
+      List.Perm.swap _ _ _⟩
+  | trans _ _ ih1 ih2 =>
+    intro ls h
+    obtain ⟨l1, e1, p1⟩ := ih1 h
+    obtain ⟨l2, e2, p2⟩ := ih2 e1
+    exact ⟨l2, e2, p1.trans p2⟩
+
+theorem typedTests_perm {av : Avail} {args args' : List Str} (h : args.Perm args') :
+    (typedTests av args).Perm (typedTests av args') := h.filterMap _
+
+theorem typedVm_perm {av : Avail} {vm : Str} {args args' : List Str} (h : args.Perm args') :
+    (typedVm av vm args).Perm (typedVm av vm args') := h.filterMap _
+
+theorem vmTyped_perm {av : Avail} {vm : Str} {args args' : List Str} (h : args.Perm args') :
+    vmTyped av vm args = vmTyped av vm args' := h.any_eq
+
+theorem testsDefault_congr {av : Avail} {pd pd' : List (Str × Str)} (h : ∀ k, dictGet pd k = dictGet pd' k) :
+    testsDefault av pd = testsDefault av pd' := by simp [testsDefault, h]
+
+theorem vmDefaultLines_congr {av : Avail} {pd pd' : List (Str × Str)} (h : ∀ k, dictGet pd k = dictGet pd' k)
+    (vm : Str) : vmDefaultLines av pd vm = vmDefaultLines av pd' vm := by
+  simp [vmDefaultLines, vmDefault, h]
 
 end I2N.Cmd
